@@ -46,7 +46,14 @@ func runSolverCtx(parent context.Context, sd solverDef, file string, timeoutS in
 	t0 := time.Now()
 	out, _ := exec.CommandContext(ctx, args[0], args[1:]...).CombinedOutput()
 	secs := time.Since(t0).Seconds()
-	first := strings.TrimSpace(strings.SplitN(string(out), "\n", 2)[0])
+	first := ""
+	for _, l := range strings.Split(string(out), "\n") {
+		// a solver's warnings (about a pattern, say) precede its answer
+		if l = strings.TrimSpace(l); l != "" && !strings.HasPrefix(l, "WARNING") {
+			first = l
+			break
+		}
+	}
 	status := "error"
 	switch {
 	case first == "unsat" || first == "sat" || first == "unknown":
